@@ -212,25 +212,32 @@ impl TmpNodes {
     pub uninterp spec fn allocated(&self) -> Set<u32>;
     /// ghost: the id remapping applied when the puts are written back (TmpNodes::remap)
     pub uninterp spec fn rm(&self) -> Map<u32, u32>;
+    /// ghost (rule R14): per index, tree ids that the id generator will not hand to this staging area: at least the tree keys of
+    /// the database when the staging area was created (assumption A5, see ConcurrentNodeIds::covers)
+    pub uninterp spec fn taken(&self) -> spec_fn(u16) -> Set<u32>;
     #[verifier::external_body]
-    pub fn new() -> (r: heed::Result<TmpNodes>)
-        ensures r matches Ok(t) ==> t.tv().puts == IMap::<u32, TNode>::empty() && t.tv().deleted == Set::<u32>::empty() && t.rm() == Map::<u32, u32>::empty() && t.allocated() == Set::<u32>::empty(), r matches Err(e) ==> e is Io || e is Heed
+    pub fn new_g_(txn: &Txn) -> (r: heed::Result<TmpNodes>)
+        ensures r matches Ok(t) ==> t.tv().puts == IMap::<u32, TNode>::empty() && t.tv().deleted == Set::<u32>::empty() && t.rm() == Map::<u32, u32>::empty() && t.allocated() == Set::<u32>::empty()
+                && (forall|i: u16, id: u32| #![trigger txn.view().contains_key(tkey(i, id))] txn.view().contains_key(tkey(i, id)) ==> (t.taken())(i).contains(id)),
+            r matches Err(e) ==> e is Io || e is Heed
     { unimplemented!() }
     #[verifier::external_body]
-    pub fn new_in(path: &PathBuf) -> (r: heed::Result<TmpNodes>)
-        ensures r matches Ok(t) ==> t.tv().puts == IMap::<u32, TNode>::empty() && t.tv().deleted == Set::<u32>::empty() && t.rm() == Map::<u32, u32>::empty() && t.allocated() == Set::<u32>::empty(), r matches Err(e) ==> e is Io || e is Heed
+    pub fn new_in_g_(path: &PathBuf, txn: &Txn) -> (r: heed::Result<TmpNodes>)
+        ensures r matches Ok(t) ==> t.tv().puts == IMap::<u32, TNode>::empty() && t.tv().deleted == Set::<u32>::empty() && t.rm() == Map::<u32, u32>::empty() && t.allocated() == Set::<u32>::empty()
+                && (forall|i: u16, id: u32| #![trigger txn.view().contains_key(tkey(i, id))] txn.view().contains_key(tkey(i, id)) ==> (t.taken())(i).contains(id)),
+            r matches Err(e) ==> e is Io || e is Heed
     { unimplemented!() }
     /// the real `put` asserts item != ItemId::MAX
     #[verifier::external_body]
     pub fn put(&mut self, item: ItemId, data: &Node) -> (r: heed::Result<()>)
         requires item != u32::MAX, !(data is Leaf)
         ensures
-            final(self).allocated() == old(self).allocated(), final(self).rm() == old(self).rm(),
+            final(self).allocated() == old(self).allocated(), final(self).rm() == old(self).rm(), final(self).taken() == old(self).taken(),
             r is Ok ==> final(self).tv() == (TmpV { puts: old(self).tv().puts.insert(item, tnode_of(*data)), deleted: old(self).tv().deleted }),
             r matches Err(e) ==> (e is Io || e is Heed) && final(self).tv() == old(self).tv(),
     { unimplemented!() }
     #[verifier::external_body]
     pub fn remove(&mut self, item: ItemId)
-        ensures final(self).allocated() == old(self).allocated(), final(self).rm() == old(self).rm(), final(self).tv() == (TmpV { puts: old(self).tv().puts, deleted: old(self).tv().deleted.insert(item) })
+        ensures final(self).allocated() == old(self).allocated(), final(self).rm() == old(self).rm(), final(self).taken() == old(self).taken(), final(self).tv() == (TmpV { puts: old(self).tv().puts, deleted: old(self).tv().deleted.insert(item) })
     { unimplemented!() }
 }
